@@ -252,6 +252,10 @@ def f_core():
     add("opt-append-fixed", cmd("p", [arg("o", "o", "opt", action="Append", num=(2, 2)), arg("s", "s", "set", num=(2, 2)), arg("p1")]))
     add("pos-zero-or-one-then-last", cmd("p", [arg("p1", num=(0, 1)), arg("p2", last=True), arg("f", "f", action="SetTrue")]))
     add("pos-zero-or-one-last", cmd("p", [arg("p0"), arg("p1", num=(0, 1)), arg("o", "o", "opt", num=(0, 1))]))
+    add("pos-low-index-multi-hyphen", cmd("p", [arg("files", num=(1, None), required=True, hyphen=True), arg("target", required=True), arg("f", "f", action="SetTrue")]),
+        extra=["-1", "-x"])
+    add("pos-low-index-multi-negnum", cmd("p", [arg("files", num=(1, None), required=True, negnum=True), arg("target", required=True), arg("f", "f", action="SetTrue")]),
+        extra=["-1", "-2", "-x"])
     add("delim-multibyte", cmd("p", [arg("o", "o", "opt", delim="\u3001", action="Append"), arg("p1", num=(0, None), delim="\U0001F600")]),
         extra=["a\u3001b", "--opt=x\u3001y", "c\U0001F600d", "\u3001"])
     add("missing-delim-dont-trailing", cmd("p", [arg("o", "o", "opt", num=(0, None), delim=",", missing=["a,b"]), arg("p1", num=(0, None), delim=",")],
